@@ -80,7 +80,8 @@ CLAIMED = {
          "_find_message_in_buffer (nothing or a genuine message with 1 <= end <= |data|; scan loop with variant), each verified on its real body; "
          "recovery is exact: _cleanup_beginning is proved to drop one character and resynchronise at the next known-tag opener, never skipping the start of a later message. "
          "The whole-stream clauses (junk never delays valid neighbours; delivery after a corrupt element) are exercised by a bounded native corpus (junk x messages x "
-         "truncation at every position of a start tag x fragmentations x thresholds) on every run.",
+         "truncation at every position of a start tag x fragmentations x thresholds) on every run; with the threshold DISABLED that recovery does not exist in the code "
+         "(a corrupt front element blocks everything behind it): recorded known finding F36, reported by the bounded corpus on every run.",
     note="ASSUMED: ET.fromstring raises only ParseError on Latin-1 text; IndiMessage.from_string raises or returns a message. z3 sequence theory with "
          "cvc5 --strings-exp as second back end (only `unsat` used). The liveness-style clauses are bounded (stand-in), stated in the evidence.",
     technique="contract-based deductive verification: VCs from the real AST (loop invariants, variants, modular helper contracts), z3 + cvc5 for strings; bounded native stand-in for whole-stream clauses",
@@ -178,13 +179,14 @@ CLAIMED = {
     technique="contract-based deductive verification: cooperative Owicki-Gries style invariant over atomic segments of the real coroutine, z3",
     design="4 C17 / 5"),
  "C01": dict(
-    category="proof",
+    category="other",
     text="Deductive invariant argument 'mirror == published view of the device state', each step a discharged obligation on the real code or a cited contract: the real mutators (Vector.enabled, "
          "Vector.state_, Group.enabled, Element.value / set_value, Driver.send_message) are proved to send exactly the definition / deletion / update messages of their table row, serialised after "
          "the state change, in order, and to leave everything else untouched; the convergence lemma -- client step (the C15 reference step) applied to the messages (content per C07) turns the "
          "published view of the old state, or anything in the case of a definition, into the published view of the new state -- is discharged by z3 on the spec functions themselves for every "
          "property kind, 0..3 elements and every enabled pattern; inheritance of groups is a ground obligation on the real metaclass. Delivery (fan-out, codec, framing, ordering) is cited from "
-         "C05/C03/C02/C19, writes from C06.",
+         "C05/C03/C02/C19, writes from C06. Two delivery call-site obligations FAIL on the tree under test and are recorded known findings (F34: messages above the control connection's "
+         "junk threshold are lost; F35: two unordered connections feed one mirror), hence level 'other', not 'proof'.",
     note="Composition by contract (DESIGN 4 C01). BLOB payloads are mirrored only by clients that enabled BLOBs and not by definitions. Bounded stand-in: native random histories over random driver "
          "definitions with a network client behind the real codec/framing and a snooping client.",
     technique="contract-based deductive verification: per-mutator publication contracts on the real code + convergence lemma over the C07/C15 contracts (z3); composition over C02/C03/C05/C06/C19 cited; "
